@@ -56,3 +56,40 @@ package scanner
 //@   modifies s.step, s.returnToStep.vals, s.returnToStep.vals[*]
 //@   ensures panics <==> !(isSimpleEscape(c) || c == 'u')
 //@   ensures panics ==> typeis(pv, errors.DocumentError)
+
+// ---- C14: after the top-level value ("Len ... the length of S"): what ends the schema ----
+//@ func (*Scanner).isNewLine(c)
+//@   props C14
+//@   requires s != nil && 1 <= s.index && s.index <= len(s.data)
+//@   maypanic
+//@   ensures normal ==> result == isNewLine(c)
+//@   ensures panics <==> (isNewLine(c) && s.annotation == annotationInline)
+//@ func (*Scanner).isAnnotationStart(c)
+//@   props C14
+//@   nopanic
+//@   ensures result == (c == '/')
+//@ func (*Scanner).switchToAnnotation()
+//@   props C14
+//@   requires s != nil && s.returnToStep != nil && 1 <= s.index && s.index <= len(s.data)
+//@   maypanic
+//@   modifies s.step, s.returnToStep.vals, s.returnToStep.vals[*]
+//@ func (*Scanner).switchToComment()
+//@   props C14
+//@   requires s != nil && s.returnToStep != nil && 1 <= s.index && s.index <= len(s.data)
+//@   maypanic
+//@   modifies s.step, s.returnToStep.vals, s.returnToStep.vals[*]
+
+// after the root value: line ends are reported, annotations and user comments are
+// entered IN BOTH MODES (they belong to the schema); any other non-blank byte ends
+// the schema - in length-computing mode by an EndTop event (unless an unfinished
+// construct is still open), otherwise it is an error
+//@ func stateEndTop(s, c)
+//@   props C14 C13
+//@   requires s != nil && s.returnToStep != nil && s.stack != nil && 1 <= s.index && s.index <= len(s.data)
+//@   maypanic
+//@   modifies s.step, s.returnToStep.vals, s.returnToStep.vals[*], s.finds, s.finds[*], s.hasTrailingCharacters
+//@   ensures normal && !isNewLine(c) && (c == '/' || ((s.annotation == annotationNone || s.annotation == annotationInline) && c == '#')) ==> len(s.finds) == old(len(s.finds))
+//@   ensures normal && isNewLine(c) ==> len(s.finds) >= old(len(s.finds)) + 1 && s.finds[old(len(s.finds))] == lexeme.NewLine
+//@   ensures normal && !isNewLine(c) && c != '/' && !((s.annotation == annotationNone || s.annotation == annotationInline) && c == '#') && !isBlank(c) && s.lengthComputing && len(s.stack.vals) == 0
+//@           ==> len(s.finds) == old(len(s.finds)) + 1 && s.finds[old(len(s.finds))] == lexeme.EndTop
+//@   ensures !isNewLine(c) && c != '/' && !((s.annotation == annotationNone || s.annotation == annotationInline) && c == '#') && !isBlank(c) && !s.lengthComputing && s.annotation == annotationNone ==> panics
